@@ -232,6 +232,11 @@ func generateConfig(r *rand.Rand, dumphook string, feedURLs []string) genConfig 
 			v = []string{`"5s"`, `"1m"`, `2.5`}[r.Intn(3)]
 			g.Notes = append(g.Notes, "duration-variant")
 		}
+		if r.Intn(10) == 0 {
+			// TOML's special floats and other float spellings: whatever is done with them, the value in force must be usable
+			v = []string{"nan", "+nan", "-nan", "inf", "+inf", "-inf", "1e3", "1e30", "-0.0", "0.5", "1e-9", "9223372036854775807", "-9223372036854775808", "9.3e18"}[r.Intn(14)]
+			g.Notes = append(g.Notes, "float-variant")
+		}
 		fmt.Fprintf(&b, "%s = %s\n", spell(k), v)
 		if strings.HasPrefix(v, "-") || v == "0" {
 			g.Notes = append(g.Notes, k+"="+v)
@@ -433,6 +438,23 @@ func TestVerifC19(t *testing.T) {
 				fail("default:"+k, "key %s is absent from the file but is %v instead of the built-in default %v", k, res.conf[keyOf[k]], base.conf[keyOf[k]])
 				return
 			}
+		}
+		// the values in force of an accepted configuration: the statement names the ones that must never get through
+		num := func(k string) float64 { f, _ := res.conf[k].(float64); return f }
+		switch {
+		case num("timeout_ns") < 0:
+			fail("accepted-unsafe-value:timeout<0", "accepted configuration runs with a negative timeout (%v ns)", res.conf["timeout_ns"])
+			return
+		case num("preload") < 0:
+			fail("accepted-unsafe-value:preload<0", "accepted configuration runs with a negative preload amount (%v)", res.conf["preload"])
+			return
+		case num("cache") <= 0:
+			fail("accepted-unsafe-value:cache<=0", "accepted configuration runs with a cache size of %v", res.conf["cache"])
+			return
+		}
+		if h, ok := res.conf["hook"].([]any); ok && len(h) == 0 {
+			fail("accepted-unsafe-value:empty-hook", "accepted configuration runs with an empty media hook")
+			return
 		}
 		// an accepted configuration must be safe to run with
 		if res.timedOut {
